@@ -11,6 +11,6 @@ Extraction "bbm_model.ml"
   unroll_span compare_take aligns_with show_tape tape_eqb ht_step
   cp_get cp_insert cp_remove cp_params halt_slots erase_slots zr_shifts
   from_str show read_instr read_slot read_state read_color show_instr show_slot show_state to_prog
-  run_quick quick_term_or_rec
+  run_quick quick_term_or_rec quick_ops_init
   calculate_diff make_rule count_apps apply_rule apply_rule_prefix apply_plus apply_plus_prefix
   get_exitpoints is_connected.
